@@ -31,7 +31,7 @@ REQUIRED_REACH = ["grid.py:enclosing_points_1d", "general.py:interpolation_weigh
                   "nd_interp.py:NdInterpolator._data_interpolator", "dataset.py:interpolate_dataset_along_axis",
                   "dataset.py:interpolate_dataset_grid", "spectrum.py:WaveSpectrum.interpolate",
                   "spectrum.py:FrequencySpectrum.interpolate", "spectrum.py:WaveSpectrum.interpolate_frequency"]
-REQUIRED_COUNTERS = {"C13.grid_cases_all_targets_inside": 3, "C13.descending_grids": 3, "C13.datetime_axes": 3, "C13.nan_neighbour_dropped": 3,
+REQUIRED_COUNTERS = {"C13.exact_half_weight_targets": 2, "C13.grid_cases_all_targets_inside": 3, "C13.descending_grids": 3, "C13.datetime_axes": 3, "C13.nan_neighbour_dropped": 3,
                      "C13.nan_result_by_half_rule": 1}
 TIMEOUT = {"quick": 600, "thorough": 3000}
 N = {"quick": (8, 300), "thorough": (16, 6000)}
@@ -84,7 +84,12 @@ def case_axis(rng):
     kind = str(rng.choice(["x", "frequency", "time"]))
     n = int(rng.choice([2, 2, 3, 5, 9, 20, 40]))
     xp = make_grid(rng, n, kind)
-    desc = bool(rng.uniform() < 0.35)
+    dyadic = bool(kind != "time" and rng.uniform() < 0.3)
+    if dyadic:
+        # multiples of 1/4 (ascending only): every difference and quotient below is exact in binary floating point,
+        # so exact mid points (weight exactly 1/2) and exact nodes are decidable without tolerance
+        xp = np.cumsum(rng.integers(1, 9, n)).astype(float) / 4.0 + float(rng.integers(-8, 8))
+    desc = bool(rng.uniform() < 0.35) and not dyadic
     if desc:
         xp = xp[::-1].copy()
     rank = int(rng.integers(1, 5))
@@ -111,6 +116,12 @@ def case_axis(rng):
             if rank == 1 or rng.uniform() < 1.0:
                 vals[tuple(sl)] = np.nan
     targets = make_targets(rng, xp, kind)
+    if dyadic:
+        # targets on the 1/8 lattice, mid points of power-of-two-wide bins included
+        targets = np.round(targets * 8.0) / 8.0
+        xs_ = np.sort(xp)
+        i = int(rng.integers(0, n - 1))
+        targets = np.concatenate([targets, [0.5 * (xs_[i] + xs_[i + 1])]])
     form = "array"
     if kind == "time":
         form = str(rng.choice(["datetime64", "datetime", "iso"]))
@@ -118,7 +129,7 @@ def case_axis(rng):
         form = "scalar"
     return {"part": "axis", "coord": kind, "xp": xp, "desc": desc, "dims": dims, "values": vals, "axis": axis,
             "targets": targets, "form": form, "nearest": bool(rng.uniform() < 0.3), "data_kind": data_kind,
-            "nankind": nank, "extra": rng.normal(0, 1, 3)}
+            "nankind": nank, "extra": rng.normal(0, 1, 3), "dyadic": dyadic}
 
 
 def build_axis_ds(c):
@@ -192,7 +203,9 @@ def judge_axis(ctx, c):
         ctx.check("C13.axis:coords", bool(np.array_equal(np.asarray(gc, float), tg)), c, {"coord": gc}, key="C13:coords")
     g = np.moveaxis(np.asarray(got.values, float), axis, 0)
     v0 = np.moveaxis(vals, axis, 0)
-    ref, tie, alt = ref_interp_axis0(xp, v0, tg, nearest=c["nearest"])
+    ref, tie, alt = ref_interp_axis0(xp, v0, tg, nearest=c["nearest"], exact=bool(c.get("dyadic")))
+    if c.get("dyadic"):
+        ctx.count("C13.dyadic_grid_cases")
     if g.shape != ref.shape:
         ctx.check("C13.axis==reference", False, c, {"shape": g.shape, "want": ref.shape}, key="C13:axis")
         return
@@ -245,6 +258,8 @@ def judge_axis(ctx, c):
                 ctx.count("C13.nan_neighbour_dropped")
             elif wvalid < 0.5 - 1e-9:
                 ctx.count("C13.nan_result_by_half_rule")
+            elif c.get("dyadic") and wvalid == 0.5:
+                ctx.count("C13.exact_half_weight_targets")
     if c["data_kind"] == "linear" and not c["nearest"]:
         # exact for linearly varying data
         ins = (tg >= xs[0]) & (tg <= xs[-1])
